@@ -314,6 +314,7 @@ def run_family(exe, test, family, seed, n, outdir, shards=None, extra_env=None, 
     def work(job):
         a, b = job
         frm = a
+        nhang = 0
         while frm < b:
             env = dict(GOENV, VERIF_OUT=outdir, VERIF_FAMILY=family, VERIF_SEED=str(seed), VERIF_N=str(b - frm),
                        VERIF_FROM=str(frm), VERIF_WATCHDOG_S=str(watchdog))
@@ -329,8 +330,9 @@ def run_family(exe, test, family, seed, n, outdir, shards=None, extra_env=None, 
                     if os.path.exists(f) and open(f).read().rstrip().endswith("hang"):
                         hung = i
                 logs.append("shard %d-%d: watchdog fired at scenario %s" % (a, b, hung))
-                if hung is None:
-                    break
+                nhang += 1
+                if hung is None or nhang >= 3:
+                    break   # three deadlocked scenarios in one shard are evidence enough: do not wait for more watchdogs
                 frm = hung + 1
                 continue
             if p.returncode != 0:
